@@ -7,12 +7,9 @@ CONSTANTS
   Filter <- AnyDesign
 INVARIANT TypeOK
 INVARIANT RankWitness
-INVARIANT ConnSound
 INVARIANT TerminalClosed
 INVARIANT TerminalIsReach
-INVARIANT LeastClosed
 INVARIANT RemoveCorrect
 INVARIANT RoundsBounded
-INVARIANT RepairFeasible
 PROPERTY GrowOnly
 CHECK_DEADLOCK TRUE
